@@ -14,7 +14,8 @@
    ranges `random` guarantees, so `... ds = Ok (out, ds')` ranges exactly over the possible runs. *)
 From Coq Require Import List ZArith NArith Bool.
 From DV Require Import Model.C11_GPTree Model.C11_PSet Proofs.C11_Tree Proofs.C11_Gen Proofs.C11_Ops Proofs.C11_Cx
-  Proofs.C11_PSet Proofs.C11_Safe Proofs.C11_Parse Proofs.C11_Main.
+  Proofs.C11_PSet Proofs.C11_Safe Proofs.C11_Parse Proofs.C11_PySlice Proofs.C11_Main.
+From DV Require Base.PyList.
 Import ListNotations.
 Local Open Scope Z_scope.
 
@@ -225,6 +226,18 @@ Theorem C11_static_limit_safe : forall k maxv op inputs ds e,
 Proof. exact static_limit_safe. Qed.
 Print Assumptions C11_static_limit_safe.
 
+(* ---- the model's slice forms are Python's slice semantics (Base/PyList.v: slice.indices clamping) ---- *)
+Theorem C11_set_slice_is_python : forall (l val : list node) (b e : nat), (b < length l)%nat ->
+  firstn b l ++ val ++ skipn (Nat.max b e) l =
+  PyList.py_slice_assign l (Some (Z.of_nat b)) (Some (Z.of_nat e)) val.
+Proof. exact set_slice_is_python. Qed.
+Print Assumptions C11_set_slice_is_python.
+
+Theorem C11_get_slice_is_python : forall (l : list node) (b e : nat), (b <= e <= length l)%nat ->
+  get_slice l b e = PyList.py_sub l (Z.of_nat b) (Z.of_nat e).
+Proof. exact get_slice_is_python. Qed.
+Print Assumptions C11_get_slice_is_python.
+
 (* ---- the primitive-set tables: pset_ok is what `_add` establishes ---- *)
 (* ops = the sequence of _add calls (is-Primitive flag, node); primitives have arity >= 1, terminals 0 *)
 Theorem C11_add_establishes_pset_ok : forall sub,
@@ -254,6 +267,17 @@ Definition ex_b := mknode 13%N [] 2%N false 0.             (* b : T2 *)
 Definition ex_e := mknode 14%N [] 2%N true 0.              (* ephemeral : T2 *)
 Definition ex_ps := mkpset [(1%N, [ex_f; ex_g]); (2%N, [ex_g])] [(1%N, [ex_a; ex_b; ex_e]); (2%N, [ex_b; ex_e])] 1%N 1 2.
 Definition ex_tree := T ex_f [T ex_a []; T ex_g [T ex_b []]].
+
+(* why C11_cx_one_point_closed needs its hypothesis on `object`-rooted trees (DESIGN Appendix B 7): in a strongly
+   typed set whose root type is `object` the "Not STGP" shortcut of cxOnePoint ignores types.
+   h : (T1, T2) -> object;  h(a, b) x h(a, b) with points 2 and 1 gives h(a, a), and a : T1 is not a T2. *)
+Definition ex_h := mknode 20%N [1%N; 2%N] 0%N false 0.
+Example C11_cx_object_root_is_excluded_for_a_reason :
+  let t := T ex_h [T ex_a []; T ex_b []] in
+  typed ex_sub 0%N t /\
+  exists o1 o2, cx_one_point (flatten t) (flatten t) [DChoice 1 0; DChoice 2 1; DChoice 2 0] = Ok ((o1, o2), []) /\
+                wt_list ex_sub 0%N o1 = false.
+Proof. split; [cbn; repeat split|]. eexists. eexists. split; [vm_compute; reflexivity|vm_compute; reflexivity]. Qed.
 
 Example C11_nonvacuous :
   pset_ok ex_sub ex_ps /\
